@@ -260,6 +260,10 @@ func (fs *FS) Walk(req *go9p.SrvReq) {
 		fs.fail(req, m)
 		return
 	}
+	if src == nil || src.node == nil {
+		fs.fail(req, "not an ordinary file (implementation)")
+		return
+	}
 	n := src.node
 	var qids []go9p.Qid
 	for i, name := range req.Tc.Wname {
@@ -318,6 +322,10 @@ func (fs *FS) Open(req *go9p.SrvReq) {
 		fs.fail(req, m)
 		return
 	}
+	if x == nil || x.node == nil {
+		fs.fail(req, "not an ordinary file (implementation)")
+		return
+	}
 	q := x.node.qid()
 	fs.resp(req, fmt.Sprintf("Ropen %v", q))
 	req.RespondRopen(&q, 0)
@@ -335,6 +343,10 @@ func (fs *FS) Create(req *go9p.SrvReq) {
 	}
 	if m := fs.errOf(a, "Create"); m != "" {
 		fs.fail(req, m)
+		return
+	}
+	if x == nil || x.node == nil {
+		fs.fail(req, "not an ordinary file (implementation)")
 		return
 	}
 	if !x.node.dir {
@@ -450,6 +462,10 @@ func (fs *FS) Remove(req *go9p.SrvReq) {
 		fs.fail(req, m)
 		return
 	}
+	if x == nil || x.node == nil {
+		fs.fail(req, "not an ordinary file (implementation)")
+		return
+	}
 	if x.node.parent != nil {
 		delete(x.node.parent.children, x.node.name)
 		x.node.removed = true
@@ -482,6 +498,9 @@ func (fs *FS) Stat(req *go9p.SrvReq) {
 	if m := fs.errOf(a, "Stat"); m != "" {
 		fs.fail(req, m)
 		return
+	}
+	if x.node == nil { // an auth fid used as an ordinary one
+		x = &fidAux{node: &node{name: "auth", path: 999}}
 	}
 	d := fs.dirOf(x.node, req.Tc.Tag, req.Conn.Dotu)
 	fs.resp(req, fmt.Sprintf("Rstat %s muid=%s", d.Name, d.Muid))
@@ -565,7 +584,7 @@ func (fs FSAuth) AuthDestroy(afid *go9p.SrvFid) {
 	if a := auxOf(afid); a != nil {
 		tok = a.token
 	}
-	fs.Log = append(fs.Log, Entry{Seq: vs.Seq(), Kind: "call", Op: "AuthDestroy", Conn: fs.connIdx(afid.Fconn), Token: tok})
+	fs.Log = append(fs.Log, Entry{Seq: vs.Seq(), Kind: "call", Op: "AuthDestroy", Conn: fs.connIdx(afid.Fconn), Token: tok, User: userName(afid.User)})
 }
 
 func (fs FSAuth) AuthCheck(fid *go9p.SrvFid, afid *go9p.SrvFid, aname string) error {
